@@ -194,7 +194,7 @@ def run(ctx, res):
     sd = seeds(40 if ctx.thorough else 20)
     deep = set(range(0, len(sd), 1 if ctx.thorough else 3))
     tasks = [(fam, vec, 3 if i in deep else 2) for i, (fam, vec) in enumerate(sd)]
-    accs = core.pool_map(_task, ctx.rot(tasks))
+    accs = core.task_map(_task, ctx.rot(tasks))
     tot = sweep.merge(accs)
     bfs = [a["extra"].get("bfs", (0, 0, False)) for a in accs]
     cov = res.coverage
@@ -235,3 +235,7 @@ def replay(case):
         return v is not None, "%d states; %s" % (n, v)
     why = run_sequence(fam, vec, seq, fresh)
     return bool(why), why or "pure"
+
+
+def replay_task(case):
+    return core.replay_func_task(case)
